@@ -31,6 +31,7 @@ import (
 	"net/url"
 	"runtime"
 	"runtime/debug"
+	"sync"
 	"sync/atomic"
 	"time"
 
@@ -97,6 +98,10 @@ type circuitBreaker struct {
 	lastFailure int64 // atomic
 	state       int64 // atomic: 0=closed, 1=open, 2=half-open
 	threshold   int64
+	// mu serialises the two recording calls, each of which updates several fields: a success
+	// landing between the count and the state update of a concurrent failure left the breaker
+	// open with a count of zero. Readers (IsOpen) stay lock-free.
+	mu sync.Mutex
 }
 
 // requestContext contains per-request data from our object pool
@@ -302,11 +307,15 @@ func (cb *circuitBreaker) IsOpen() bool {
 }
 
 func (cb *circuitBreaker) RecordSuccess() {
+	cb.mu.Lock()
+	defer cb.mu.Unlock()
 	atomic.StoreInt64(&cb.failures, 0)
 	atomic.StoreInt64(&cb.state, 0) // closed
 }
 
 func (cb *circuitBreaker) RecordFailure() {
+	cb.mu.Lock()
+	defer cb.mu.Unlock()
 	failures := atomic.AddInt64(&cb.failures, 1)
 	atomic.StoreInt64(&cb.lastFailure, time.Now().UnixNano())
 
